@@ -25,6 +25,9 @@ pub const SITES: &[(&str, usize, &str)] = &[
     ("now", 0, "if(now().unix() >= 0.0, {K}, {K})"),
     ("sample", 3, "(range(10).sample(2).len() + {K} - 2)"),
     ("shuffle", 3, "([1, 2, 3].shuffle().len() + {K} - 3)"),
+    ("shuffle-one", 3, "([1].shuffle().len() + {K} - 1)"),
+    ("shuffle-empty", 3, "(cast<Sequence<int>>([]).shuffle().len() + {K})"),
+    ("shuffle-sliced-to-one", 3, "([1, 2, 3].take(1).shuffle().len() + {K} - 1)"),
     ("random", 3, "if(random() >= 0.0, {K}, {K})"),
     ("disc-random", 3, "if(uniform_distribution(1, 6).random() >= 1, {K}, {K})"),
     ("disc-sample", 3, "(uniform_distribution(1, 6).sample(3).len() + {K} - 3)"),
